@@ -74,6 +74,10 @@ fn main() {
             let only = replay.as_ref().and_then(|r| r.get("case")).and_then(|c| c.as_u64());
             e3s::run(seed, shard, nshards, a.u64("cases", if thorough { 20 } else { 2 }), a.u64("rounds", 6) as usize, a.u64("threads", 6) as usize, only, &mut rep);
         }
+        "e3p" => {
+            let only = replay.as_ref().and_then(|r| r.get("case")).and_then(|c| c.as_u64());
+            e3p::run(seed, shard, nshards, a.u64("cases", if thorough { 12 } else { 1 }), only, &mut rep);
+        }
         "e1c" => {
             let only = replay.as_ref().map(|r| {
                 let f = &r["fault"];
